@@ -208,7 +208,9 @@ impl Check for C03 {
                 } else {
                     // constraints as instance sets too (cheap here)
                     let uni = universe(&prog, &[]);
-                    if let Cmp::Different(why) = compare_multisets(&real.answers, &rans, &uni) {
+                    if cut_at_cap(real.ended, real.answers.len(), true, rans.len()) {
+                        out.count("comparisons_skipped_answer_cap", 1);
+                    } else if let Cmp::Different(why) = compare_multisets(&real.answers, &rans, &uni) {
                         out.violate("M-ref", "answers differ from the reference semantics", format!("{} | real {} | reference {}", why, show_answers(&real.answers), show_answers(&rans)), format!("{}", prog));
                     }
                 }
